@@ -131,6 +131,33 @@ def gen_cases(ck):
                         ev += [["si", 0, 40 + j, 1], ["p"]]
                     ev += [["se", 0], ["p"], ["p"]]
                     add(ev, [0], "hangup_during_stream", {"how": how, "items": n_items, "behind": behind})
+    # (g) suspension points: the write of a stream item (or Service::handle of the streaming call) stays
+    #     pending for k polls while another client connects / calls / another stream yields: every item is
+    #     still written once, in order, and the others lose nothing (sequential reference only)
+    for k in (1, 2):
+        for what in ("item_write", "handle", "both"):
+            for meanwhile in ("connect", "call", "item"):
+                tags = sg.Tags()
+                t0 = tags.next()
+                fr0 = [sg.call("Sub", 0, t0, more=rng.choice(sg.MORE)), sg.call("Echo", 0, tags.next(), v=1)]
+                fr1 = [sg.call("Sub", 1, tags.next(), more=True), sg.call("Count", 1, tags.next())]
+                fr2 = [sg.call("Echo", 2, tags.next(), v=2), sg.call("Count", 2, tags.next())]
+                ev = [["n", 0], ["n", 1], ["a", 1, sg.wire(fr1).hex()], ["p"]]
+                if what in ("handle", "both"):
+                    ev.append(["hg", t0, k])
+                if what in ("item_write", "both"):
+                    ev.append(["wp", 0, 0, k])
+                ev += [["a", 0, sg.wire(fr0).hex()], ["si", 0, 10, 1], ["p"], ["p"]]
+                if meanwhile == "connect":
+                    ev += [["n", 2], ["a", 2, sg.wire(fr2).hex()]]
+                elif meanwhile == "call":
+                    ev += [["n", 2], ["p"], ["a", 2, sg.wire(fr2).hex()]]
+                else:
+                    ev += [["si", 1, 20, 1], ["si", 1, 21, 1]]
+                ev += [["p"]] * (2 * k + 2) + [["si", 0, 11, 2], ["se", 0], ["se", 1]] + [["p"]] * 3
+                cases.append({"script": ev, "hyp": [0, 1] + ([2] if meanwhile != "item" else []),
+                              "tag": "suspended_item_write_or_handle", "spec_only": True, "failing": [],
+                              "info": {"k": k, "what": what, "meanwhile": meanwhile}})
     # (s) items of two (three) open streams become available between the same two polls of the server, with
     #     every previous stream winner (both round-robin orders): none may be consumed and thrown away; the
     #     calls pipelined behind the streaming calls are answered after the ends, which also arrive together
